@@ -57,6 +57,17 @@ def _install_z3_counter():
     _Z3["installed"] = True
 
 
+def _drop_weakref_gc_patch():
+    """CrossHair patches weakref.ref.__call__ to run gc.collect() first (a determinism aid, ~8 ms per deref).
+    The library dereferences weakrefs on every state access; every weakly referenced object in our harnesses is
+    kept alive by a strong reference, so the plain dereference is deterministic and the patch is dropped."""
+    from weakref import ref
+
+    import crosshair.core as core
+
+    core._PATCH_REGISTRATIONS.pop(ref.__call__, None)
+
+
 # --------------------------------------------------------------------------- functions executed
 class _Profiler:
     def __init__(self):
@@ -197,6 +208,7 @@ def _explore(mod, prop, params, spec, res):
     from crosshair.util import IgnoreAttempt, NotDeterministic, UnexploredPath
 
     _install_z3_counter()
+    _drop_weakref_gc_patch()
     z0 = dict(_Z3)
     known = load_known(prop)
     root = RootNode()
